@@ -11,7 +11,7 @@ use serde_json::{Value, json};
 use std::time::Duration;
 
 pub fn meta(rep: &mut Report) {
-    rep.rule = "base conversations: BMC (bad states jointly / individually) and PDR (unsat-core generalisation on / off) on six systems (safe, failing at step 0, failing at step 3, with arrays, with constraints, stateless) x personas; for every response-bearing command n of the fault-free conversation (check-sat, check-sat-assuming, get-value, get-unsat-assumptions, numbered across PDR's solver restart) x every fault kind (error reply with message lengths 0,1,5,6,7,8,40 and with quotes / balanced / unbalanced parentheses, solver staying alive or exiting; unknown; empty line; unbalanced prefix of the correct reply then exit; exit 0 without reply; exit 1 with stderr text; balanced garbage; unbalanced garbage then exit) one run is made with that fault injected by the reference solver. Oracle: the call returns Err or Ok(Unknown) - never Ok(Success|Fail), never a panic, always within the deadline (twice) - and for error replies the returned error text contains the solver's message verbatim. distinct_nontrivial = distinct fault situations (conversation, kind of command at the fault point, fault kind and parameter) in which the fault was actually delivered (the solver logged it); evaluations counts every fault position separately".into();
+    rep.rule = "base conversations: BMC (bad states jointly / individually) and PDR (unsat-core generalisation on / off) on six systems (safe, failing at step 0, failing at step 3, with arrays, with constraints, stateless) x personas; for every response-bearing command n of the fault-free conversation (check-sat, check-sat-assuming, get-value, get-unsat-assumptions, numbered across PDR's solver restart) x every fault kind (error reply with message lengths 0,1,5,6,7,8,40 and with quotes / balanced / unbalanced parentheses, solver staying alive or exiting; unknown; empty line; unbalanced prefix of the correct reply then exit; exit 0 without reply; exit 1 with stderr text; balanced garbage; unbalanced garbage then exit; an unsolicited `unsupported` / `success` line in front of the intact reply) one run is made with that fault injected by the reference solver. Oracle: the call returns Err or Ok(Unknown) - never Ok(Success|Fail) (for the unsolicited-line faults: never a verdict other than the fault-free one), never a panic, always within the deadline (twice) - and for error replies the returned error text contains the solver's message verbatim. distinct_nontrivial = distinct fault situations (conversation, kind of command at the fault point, fault kind and parameter) in which the fault was actually delivered (the solver logged it); evaluations counts every fault position separately".into();
     rep.assumptions = vec![
         "faults are injected only at response-bearing commands; every answer in these conversations is load-bearing for the verdict".into(),
         "termination is observed as 'returns within the deadline, twice'".into(),
@@ -74,6 +74,10 @@ fn fault_menu(thorough: bool) -> Vec<(String, String)> {
     v.push(("garbage".into(), "(foo bar)".into()));
     v.push(("garbage".into(), "sat unsat".into()));
     v.push(("garbage-unbalanced".into(), "".into()));
+    // an unsolicited general response in front of the intact reply (e.g. the late `unsupported` for an option
+    // set at start-up): every later reply is shifted by one unless the reader stops or resynchronises
+    v.push(("prefix".into(), "unsupported".into()));
+    v.push(("prefix".into(), "success".into()));
     v
 }
 
@@ -86,6 +90,8 @@ struct Run {
     kind: String,
     param: String,
     order: u64,
+    /// verdict of the fault-free conversation
+    base_verdict: String,
 }
 
 fn responses(res: &Value) -> Vec<(u64, String)> {
@@ -117,6 +123,13 @@ fn classify(r: &Run, res: &Value) -> Option<(String, String)> {
     );
     let kind_class = if r.kind.starts_with("error") { format!("{}:len{}", r.kind, msg_len_class(&r.param)) } else { r.kind.clone() };
     match verdict {
+        // noise in front of an intact reply: a reader that skips it and still reports the right verdict has
+        // received every answer intact; a different verdict rests on a shifted conversation
+        "success" | "fail" if r.kind == "prefix" && verdict == r.base_verdict => None,
+        "success" | "fail" if r.kind == "prefix" => Some((
+            format!("wrong-verdict-after-noise|prefix:{}|{}", r.param, r.cmd),
+            format!("the engine reports `{verdict}` (the fault-free run reports `{}`) after an unsolicited `{}` line in front of an intact reply: {desc}", r.base_verdict, r.param),
+        )),
         "success" | "fail" => Some((format!("verdict-despite-fault|{kind_class}|{}", r.cmd), format!("the engine reports `{verdict}` although a solver answer it rests on was not received intact: {desc}"))),
         "unknown" => None,
         "err" => {
@@ -212,7 +225,7 @@ pub fn run(opts: &Opts, rep: &Report) {
             }
             kinds_seen.insert(cmd.clone());
             for (kind, param) in menu.iter() {
-                runs.push(Run { sys_label: label, spec: spec.clone(), cfg: cfg.clone(), point: *n, cmd: cmd.clone(), kind: kind.clone(), param: param.clone(), order });
+                runs.push(Run { sys_label: label, spec: spec.clone(), cfg: cfg.clone(), point: *n, cmd: cmd.clone(), kind: kind.clone(), param: param.clone(), order, base_verdict: v.to_string() });
                 order += 1;
             }
         }
@@ -268,7 +281,9 @@ pub fn replay(case: &Value, rep: &Report) {
     let cfg = cfg_from_json(&case["cfg"]);
     let fault = case["fault"].as_str().unwrap_or("").to_string();
     let p: Vec<&str> = fault.splitn(3, ':').collect();
+    let base = run_jobs(&[job(&spec, &cfg, json!({}), false)], 1, Duration::from_secs(120));
     let r = Run {
+        base_verdict: base[0]["verdict"].as_str().unwrap_or("").to_string(),
         sys_label: "replay",
         spec: spec.clone(),
         cfg: cfg.clone(),
